@@ -56,6 +56,8 @@ def gen(prop, tier, rng):
     else:
         plan = [(sc, cfg, cl) for sc in scripts for cfg in cfgs for cl in clients if rng.random() < 0.25]
     for sc, cfg, cl in plan:
+        if C.POISONED:
+            break              # a call hung in real time (it is in the traces as HANG): later histories would only repeat it
         if cl == "udp" and any(o in ("short", "close") for o in sc):
             sc = [o if o not in ("short", "close") else "nothing" for o in sc]
         if cl != "tcp" and "close" in sc:
